@@ -905,10 +905,13 @@ class RPDriver(Driver):
                  "metric": "supremum"},
                 # sequential RQA (no recurrence matrix kept)
                 {"how": ["set_fixed_threshold", 0.6], "emb": [2, 1],
-                 "metric": "supremum", "sparse": True}]
+                 "metric": "supremum", "sparse": True},
+                # normalised copy of the caller's series
+                {"how": ["set_fixed_threshold", 0.6], "emb": [2, 1],
+                 "metric": "supremum", "normalize": True}]
 
     def ctor_args(self, model):
-        return (self.arr("time_series", TS_A),)
+        return (self.arr("time_series", TS_A, float),)
 
     def construct(self, model):
         kw = {RP_KW[model["how"][0]]: model["how"][1]}
@@ -916,6 +919,8 @@ class RPDriver(Driver):
             kw.update(dim=model["emb"][0], tau=model["emb"][1])
         if model.get("sparse"):
             kw["sparse_rqa"] = True
+        if model.get("normalize"):
+            kw["normalize"] = True
         return self.cls()(*self.ctor_args(model), metric=model["metric"],
                           silence_level=SILENCE, **kw)
 
